@@ -616,3 +616,53 @@ def known_histories():
     if f.exists():
         out += json.loads(f.read_text())
     return out
+
+
+def phstat_history(rng):
+    """pH-stat titration up and down: EQUILIBRIUM_PHASES is redefined between chained steps with the same phase list and
+    element set but a different alternative formula / amount (definition-only simulations give the state before each
+    step; they run no calculation, so the solver's stored model survives from step to step)"""
+    db = rng.choice(["phreeqc.dat", "phreeqc.dat", "wateq4f.dat", "Amm.dat"])
+    extra_ph = rng.choice([None, None, "Calcite 0 %s" % fmt(rng.choice([0, 0.01, 0.1])), "Quartz 0 0", "Gypsum 0 0.01"])
+    sol = ["SOLUTION 1", " temp 25", " pH %s" % fmt(rng.uniform(6, 8)), " units mmol/kgw",
+           " Na %s" % fmt(rng.uniform(1, 30)), " K %s" % fmt(rng.uniform(0.5, 10)), " Cl %s" % fmt(rng.uniform(1, 30)),
+           " N(5) %s" % fmt(rng.uniform(0.1, 5)), " Ca %s" % fmt(rng.uniform(0.1, 5)), " S(6) %s" % fmt(rng.uniform(0.1, 5))]
+    if rng.random() < 0.5:
+        sol.append(" C(4) %s" % fmt(rng.uniform(0.5, 5)))
+    reagents = {"base": ["NaOH", "KOH", "Ca(OH)2"], "acid": ["HCl", "HNO3", "H2SO4"]}
+
+    def pp_block():
+        kind = rng.choice(["base", "acid", "none"])
+        if kind == "none":
+            line = " Fix_H+ %s %s" % (fmt(-rng.uniform(5, 9)), fmt(rng.choice([0, 1])))      # no alternative formula
+        else:
+            target = rng.uniform(8.5, 10.5) if kind == "base" else rng.uniform(3, 5.5)
+            line = " Fix_H+ %s %s %s" % (fmt(-target), rng.choice(reagents[kind]), fmt(rng.choice([10, 1, 0.5])))
+        return "EQUILIBRIUM_PHASES 1\n" + line + "\n" + ((" " + extra_ph + "\n") if extra_ph else ""), kind
+    first, k0 = pp_block()
+    while k0 == "none":
+        first, k0 = pp_block()
+    use_rxn = rng.random() < 0.4
+    t0 = "\n".join(sol) + "\nPHASES\nFix_H+\n H+ = H+\n log_k 0\n" + first
+    if use_rxn:
+        t0 += "REACTION 1\n NaCl 1\n %s mmol\n" % fmt(rng.uniform(0.1, 3))
+    elements = ["C", "Ca", "Cl", "H", "K", "N", "Na", "O", "S"]
+    ptxt, heads = punch_text(elements, [], [], [], [], [])
+    t0 += "INCREMENTAL_REACTIONS false\n" + ptxt + "USE solution none\nDUMP\n -all\nEND\n"
+    sims, plan = [t0], []
+    tags = ["db:" + db, "phstat", "phstat:first/" + k0]
+    for s in range(rng.randint(2, 5)):
+        if s > 0:
+            blk, kind = pp_block()
+            sims.append(blk + "DUMP\n -all\nEND\n")
+            plan.append({"mode": "define"})
+            tags.append("phstat:redefine/" + kind)
+        lines = "USE solution 1\nUSE equilibrium_phases 1\n" + ("USE reaction 1\n" if use_rxn else "")
+        sims.append(lines + "SAVE solution 1\nSAVE equilibrium_phases 1\nDUMP\n -all\nEND\n")
+        use = {"equilibrium_phases": 1}
+        if use_rxn:
+            use["reaction"] = 1
+        plan.append({"mode": "use", "sol": ("solution", 1), "use": use, "save": {"solution": 1, "equilibrium_phases": 1},
+                     "reaction": 1 if use_rxn else None})
+    return {"db": db, "incremental": False, "sims": sims, "plan": plan, "extra_phases": {"Fix_H+": "H"}, "elements": elements,
+            "heads": heads, "punch": {"phases": [], "gases": [], "kin": [], "sscomps": [], "surfaces": []}, "tags": tags}
